@@ -48,7 +48,8 @@ def main():
         base_ok = b.returncode == 0
         base_line = b.stdout.strip().splitlines()[0] if b.stdout.strip() else b.stderr[-300:]
     else:
-        base_line = "skipped"
+        # re-evaluation of a seed whose patch was confirmed against the pinned suite before: keep that record
+        base_line = (meta.get("confirmed") or {}).get("baseline_suite_with_patch") or "skipped"
     checks = {}
     tag = re.sub(r"\W", "_", S)
     EV, RP = f"/tmp/scr/evidence{tag}", f"/tmp/scr/replays{tag}"
